@@ -28,6 +28,9 @@ DICT_TEMPLATES = {
     "H": {"method": "AM1", "scf_eps": 1.0e-8, "scf_converger": [1], "dispersion": True},
     "I": {"method": "AM1", "scf_eps": 1.0e-8, "scf_converger": [1]},
     "J": {"method": "AM1", "scf_eps": 1.0e-8, "scf_converger": [2], "UHF": True},
+    "K": {"method": "AM1", "scf_eps": 1.0e-8, "scf_converger": [1], "UHF": True},
+    "L": {"method": "AM1", "scf_eps": 1.0e-8, "scf_converger": [1]},
+    "M": {"method": "AM1", "scf_eps": 1.0e-8, "scf_converger": [1], "excited_states": {"n_states": 2, "method": "cis"}, "active_state": 1},   # forces of the first excited state
 }
 # jobs that share dict A but declare their own threshold/backward mode write them into the dict
 # before the call, as a user would (documented keys only)
@@ -44,11 +47,18 @@ JOBS = {
     "dispG": dict(dict="G", mol="h2o_dimer"),
     "dispH": dict(dict="H", mol="ch4_h2o"),
     "farI": dict(dict="I", mol="h2o_far"),                  # atom pairs beyond the overlap cutoff (40 bohr)
-    "uhfJ": dict(dict="J", mol="ch3", fails=True),          # refused inside the SCF solver (UHF + Pulay), after the solve has started
+    "uhfJ": dict(dict="J", mol="ch3", fails=True),
+    "uhfsK": dict(dict="K", mol="h2o", displace=0.03),      # unrestricted singlet from the default start density
+    # ONE MD driver object (per settings dict) used for two different runs; the second one steers towards its own reference energy
+    "mdL1": dict(dict="L", mol="h2o", mdobj=dict(steps=2, seed=5)),
+    "mdL2": dict(dict="L", mol="h2o", displace=0.08, mdobj=dict(steps=3, seed=6, control_energy_shift=True)),
+    "benzM": dict(dict="M", mol="benzene", displace=0.05),   # thread-count comparison only (not part of the Session pool)          # refused inside the SCF solver (UHF + Pulay), after the solve has started
 }
 scf_driver.MOLS["h2o_dimer"] = ([8, 8, 1, 1, 1, 1], [[0, 0, 0], [3.0, 0.1, 0.2], [0.96, 0, 0], [-0.24, 0.93, 0], [3.9, 0.3, 0.3], [2.8, -0.8, 0.4]], 0, 1)
 scf_driver.MOLS["ch4_h2o"] = ([8, 6, 1, 1, 1, 1, 1, 1], [[3.6, 0.2, 0.1], [0, 0, 0], [4.5, 0.4, 0.2], [3.4, -0.7, 0.3], [0.63, 0.63, 0.63], [-0.63, -0.63, 0.63], [-0.63, 0.63, -0.63], [0.63, -0.63, -0.63]], 0, 1)
 scf_driver.MOLS["h2o_far"] = ([8, 8, 1, 1, 1, 1], [[0, 0, 0], [25.0, 0.3, 0.2], [0.96, 0, 0], [-0.24, 0.93, 0], [25.9, 0.5, 0.3], [24.8, -0.6, 0.5]], 0, 1)
+scf_driver.MOLS["benzene"] = ([6] * 6 + [1] * 6, [[1.39 * __import__("math").cos(k * 1.0471975512), 1.39 * __import__("math").sin(k * 1.0471975512), 0.0] for k in range(6)]
+                               + [[2.48 * __import__("math").cos(k * 1.0471975512), 2.48 * __import__("math").sin(k * 1.0471975512), 0.0] for k in range(6)], 0, 1)
 scf_driver.MOLS["nh2rad"] = ([7, 1, 1], [[0, 0, 0], [1.0, 0.2, 0], [-1.0, 0.2, 0]], 0, 1)
 
 DEFAULT_FUNCS = [
@@ -79,7 +89,7 @@ def hidden_state(dicts):
                 dirty.append(f"{cls.__name__}.{name}:{sorted(dflt)[:3]}")
     return {
         "scfcls": {"method": getattr(SCF, "themethod", "-"), "eps": exp if hasattr(SCF, "themethod") else 0},
-        "delems": {d: sorted(x for x in (dicts[d].get("elements") or []) if x != 0) if d in dicts else [] for d in DICT_TEMPLATES},
+        "delems": {d: sorted(x for x in (dicts[d].get("elements") or []) if x != 0) if d in dicts else [] for d in DICT_TEMPLATES if d in MODEL_DICTS},
         "dtype": str(torch.get_default_dtype()),
         "grad": torch.is_grad_enabled(),
         "threads": torch.get_num_threads(),
@@ -92,6 +102,7 @@ def _tl(x):
 
 
 _DRIVERS = {}
+MODEL_DICTS = "ABCDEFGHIJKL"      # the settings dicts of the Session module (M is used by the thread-count comparison only)
 
 
 def run_job(name, dicts, workdir, pending):
@@ -113,6 +124,15 @@ def run_job(name, dicts, workdir, pending):
         res = {"x": _tl(mol.coordinates), "v": _tl(mol.velocities)}
         MDmod.Molecular_Dynamics_Basic.run_from_checkpoint(out["prefix"] + ".restart.pt")
         return res
+    if j.get("mdobj"):
+        out = {"prefix": os.path.join(workdir, "mdo_%d" % len(os.listdir(workdir))), "molid": [0], "print every": 0, "checkpoint every": 0, "xyz": 0, "h5": {"data": 1, "coordinates": 1}}
+        mkey = ("MD", d, tuple(p.get("elements") or ()))
+        if os.environ.get("VERIF_SESSION_FRESH_DRIVERS") == "1" or _DRIVERS.get("MD" + d, (None, None))[0] != mkey:
+            _DRIVERS["MD" + d] = (mkey, MDmod.Molecular_Dynamics_Basic(seqm_parameters=p, timestep=0.4, Temp=300.0, output=out))
+        md = _DRIVERS["MD" + d][1]
+        md.output_config.prefix = out["prefix"]
+        md.run(mol, **j["mdobj"])
+        return {"x": _tl(mol.coordinates), "v": _tl(mol.velocities), "Etot": _tl(mol.Etot)}
     if j.get("out") == "gap":
         ekey = ("E", d, tuple(p.get("elements") or ()), json.dumps(j.get("set", {}), sort_keys=True))
         if os.environ.get("VERIF_SESSION_FRESH_DRIVERS") == "1" or _DRIVERS.get("E" + d, (None, None))[0] != ekey:
